@@ -37,7 +37,8 @@ def replay (j : Json) : R Verdict := do
   if hang then
     pf := ("C15", "cambrian neither returned nor could be waited for within the watchdog limit (hang)") :: ("C04", "hang") :: pf
     if family == "kill-after" then
-      pf := ("C07", "an evaluation exceeding its time limit was not ended (killed and counted as rejected): the run did not continue") :: pf
+      pf := ("C07", "an evaluation exceeding its time limit was not ended (killed and counted as rejected): the run did not continue") ::
+            ("C05", "an evaluation that exceeded its time limit was never replaced: its slot stayed occupied although budget was left (the run did not continue)") :: pf
   match exitCode with
   | some cde => if cde != 0 && cde != 1 && cde != 2 then pf := ("C15", s!"cambrian exited with status {cde} (crash)") :: pf
   | none => if !hang then pf := ("C15", s!"cambrian was killed by signal {(fieldD obs "signal").compress}") :: pf
@@ -177,6 +178,8 @@ def replay (j : Json) : R Verdict := do
     | some intact =>
       if outMode == 2 && !intact then pf := ("C16", "existing output directory was modified although --force was not given") :: pf
       if outMode == 2 && okExit then pf := ("C16", "existing output directory was not refused") :: pf
+      if outMode == 4 && !intact then pf := ("C16", "an existing (empty) output directory was written to although --force was not given") :: pf
+      if outMode == 4 && okExit then pf := ("C16", "an existing (empty) output directory was not refused") :: pf
       if outMode == 3 && intact && okExit then dis := some "existing output directory not removed with --force"
     | none => pure ()
   -- C14: the report files
@@ -249,6 +252,19 @@ def replay (j : Json) : R Verdict := do
       pf := ("C15", s!"cambrian panicked in the twin run with verbose flipped: {((fieldD to "stderrTail").getStr?.toOption.getD "").takeEnd 200}") :: pf
     if (fieldD to "exitCode").compress != (fieldD obs "exitCode").compress || (fieldD to "stdoutLines").compress != (fieldD obs "stdoutLines").compress then
       pf := ("C15", s!"verbose changes the outcome: exit {(fieldD obs "exitCode").compress} vs {(fieldD to "exitCode").compress}") :: pf
+    -- the files of the output directory: the same names, and the diagnostic dump of a failing child (argument, stdout,
+    -- stderr) and the best-seen file byte for byte (reports carry timings and are not compared)
+    if outMode == 1 then
+      let fa := fieldD obs "files"
+      let fb := fieldD to "files"
+      let names (x : Json) : List String := match x.getObj? with | .ok o => (o.toList.map (·.1)).mergeSort | .error _ => []
+      if names fa != names fb then
+        pf := ("C15", s!"verbose changes the files written to the output directory: {names fa} vs {names fb}") :: pf
+      else
+        for n in names fa do
+          if n.startsWith "failed_obj_func_" || n == "best_seen.json" then
+            if (fieldD fa n).compress != (fieldD fb n).compress then
+              pf := ("C15", s!"verbose changes the content of {n} in the output directory ({(fieldD (fieldD fa n) "len").compress} vs {(fieldD (fieldD fb n) "len").compress} bytes)") :: pf
     if ((fieldD to "survivors").getArr?.toOption.getD #[]).size > 0 then pf := ("C07", "survivors in twin run") :: pf
   | none => pure ()
   for n in ((fieldD obs "scriptNotes").getArr?.toOption.getD #[]) do
